@@ -927,22 +927,30 @@ class Buffer(Iterable):
                     break
                 q.put(x)  # if `q` is full, will wait here
             q.put(FINISHED)
-        except Exception as e:
+        except BaseException as e:
+            # `BaseException` so that a stop request (`StopRequested`) surfacing
+            # from the source also reaches the consumer instead of leaving it waiting.
             q.put(STOPPED)
             q.put(e)
             # raise
             # Do not raise here. Otherwise it would print traceback,
             # while the same would be printed again in ``__iter__``.
 
-    def _finalize(self):
+    def _finalize(self, ended: bool = True):
         if self._stopped is None:
             return
         self._stopped.set()
         tasks = self._tasks
-        while not tasks.empty():
-            _ = tasks.get()
-        # `tasks` is now empty. The thread needs to put at most one
-        # more element into the queue, which is safe.
+        while not ended:
+            # The worker always ends by putting either `FINISHED` or `STOPPED`
+            # followed by the exception. Keep taking elements until then, so that
+            # the worker is never left blocked on a full queue.
+            z = tasks.get()
+            if z == FINISHED:
+                ended = True
+            elif z == STOPPED:
+                tasks.get()
+                ended = True
         self._worker.join()
         self._stopped = None
 
@@ -951,16 +959,20 @@ class Buffer(Iterable):
         tasks = self._tasks
         finished = FINISHED
         stopped = STOPPED
+        ended = False  # whether the worker's end marker has been received
         try:
             while True:
                 z = tasks.get()
                 if z == finished:
+                    ended = True
                     break
                 if z == stopped:
-                    raise tasks.get()
+                    e = tasks.get()
+                    ended = True
+                    raise e
                 yield z
         finally:
-            self._finalize()
+            self._finalize(ended)
 
 
 def fifo_stream(
